@@ -291,6 +291,102 @@ func rulesC04(w *World, o *Out) {
 			// the comparison executes before the append whenever the list is non-empty — check that the append is not reachable avoiding the loop's header block
 			okEq = !reach && replaced
 		}
+		// the same search written with slices.IndexFunc: idx = IndexFunc(q.Evidence, e.ValAddress == data.ValAddress);
+		// the append happens only under "not found" (idx < 0 / idx == -1) and q.Evidence[idx].Proof is replaced otherwise
+		if !okEq {
+			for _, ix := range FindCalls(ae, false, func(c Callee) bool { return c.Pkg == "slices" && strings.HasPrefix(c.Name, "IndexFunc") }) {
+				args := ix.Args()
+				if len(args) != 2 {
+					continue
+				}
+				var cb *ssa.Function
+				switch v := args[1].(type) {
+				case *ssa.MakeClosure:
+					cb, _ = v.Fn.(*ssa.Function)
+				case *ssa.Function:
+					cb = v
+				}
+				if cb == nil || len(cb.Params) != 1 {
+					continue
+				}
+				if nm, _ := loadedField(args[0]); nm != "Evidence" {
+					continue
+				}
+				match := false
+				for _, e := range FindCalls(cb, false, func(c Callee) bool { return c.Name == "Equals" || c.Name == "Equal" }) {
+					var elem, other bool
+					for _, a := range e.Args() {
+						aps, _ := fl.Influence(a)
+						for ap := range aps {
+							if !strings.HasSuffix(ap.Path, ".ValAddress") {
+								continue
+							}
+							if ap.Root == ssa.Value(cb.Params[0]) {
+								elem = true
+							} else {
+								other = true
+							}
+						}
+					}
+					// the closure's verdict is that comparison
+					for _, r := range Returns(cb) {
+						if canon(r.Ret.Results[0]) == ssa.Value(e.Value()) && elem && other {
+							match = true
+						}
+					}
+				}
+				if !match {
+					continue
+				}
+				idx := ssa.Value(ix.Value())
+				notFound := func(in ssa.Instruction) bool {
+					for _, f := range FactsAt(in) {
+						if f.Kind != FCmp || canon(f.X) != idx {
+							continue
+						}
+						k, isK := canon(f.Y).(*ssa.Const)
+						if !isK || k.Value == nil {
+							continue
+						}
+						if (f.Op == token.LSS && k.Int64() == 0) || (f.Op == token.EQL && k.Int64() == -1) || (f.Op == token.LEQ && k.Int64() == -1) {
+							return true
+						}
+					}
+					return false
+				}
+				okApp := len(appends) > 0
+				for _, ap := range appends {
+					if !notFound(ap) {
+						okApp = false
+					}
+				}
+				replaced := false
+				for _, b := range ae.Blocks {
+					for _, in := range b.Instrs {
+						st, isSt := in.(*ssa.Store)
+						if !isSt {
+							continue
+						}
+						fa, isFA := st.Addr.(*ssa.FieldAddr)
+						if !isFA || fieldName(fa.X.Type(), fa.Field) != "Proof" {
+							continue
+						}
+						if ia, isIA := elemRoot(fa.X).(*ssa.IndexAddr); !isIA || canon(ia.Index) != idx {
+							continue
+						}
+						aps, _ := fl.Influence(st.Val)
+						for ap := range aps {
+							if p, isP := ap.Root.(*ssa.Parameter); isP && p == ae.Params[1] && strings.HasSuffix(ap.Path, ".Proof") {
+								replaced = true
+							}
+						}
+					}
+				}
+				if okApp && replaced {
+					okEq = true
+				}
+			}
+		}
 		o.Check("C04.R3", "AddEvidence|existing validator's proof replaced, append only otherwise", okEq, w.Pos(ae.Pos()),
 			"an equality test between q.Evidence[i].ValAddress and data.ValAddress must replace Proof on its true edge, from which the append is unreachable")
 		// other writers
